@@ -38,18 +38,14 @@ func run(files scriggo.Files, name string) {
 }
 
 func main() {
-	D := "{% defer func() { }() %}"
-	imp := `{% macro M %}` + D + `abc{% end %}{% macro N %}{% var v = M() %}[{{ v }}]{% end %}`
-	for _, src := range []string{
-		`{% macro M %}` + D + `abc{% end %}{% var v = M() %}[{{ v }}]`,
-		`{% macro M %}` + D + `abc{% end %}{% macro N %}{{ M() }}{% end %}{% var v = M() %}[{{ v }}]`,
-		`{% import "imp.html" %}{% var v = M() %}[{{ v }}]`,
-		`{% import "imp.html" %}{{ N() }}`,
-		`{% import "imp.html" %}{% var v = N() %}{{ v }}`,
-		`{% var v = render "r.html" %}[{{ v }}]`,
-		`[{{ render "r.md" }}]`,
-		`{% import "imp.md" %}[{{ M() }}]`,
+	for _, f := range []struct{ name, src string }{
+		{"i.txt", `{% macro M html %}<script>var a = "{{ s }}";</script><a href='{{ s }}'>{% end %}{{ M() }}`},
+		{"i.html", `{% macro M html %}<script>var a = "{{ s }}";</script><a href='{{ s }}'>{% end %}{{ M() }}`},
+		{"i.html", `{% macro M %}<script>var a = "{{ s }}";</script><a href='{{ s }}'>{% end %}{{ M() }}`},
+		{"i.txt", `{% macro M html %}<script>var a = "x";</script><a href='{{ s }}'>{% end %}{{ M() }}`},
+		{"i.txt", `{% macro M html %}<script>var a = 1;</script>{{ s }}{% end %}{{ M() }}`},
+		{"i.txt", `{% macro M html %}<style>a{}</style>{{ s }}{% end %}{{ M() }}`},
 	} {
-		run(scriggo.Files{"i.html": []byte(src), "imp.html": []byte(imp), "r.html": []byte(D + "abc"), "r.md": []byte(D + "abc"), "imp.md": []byte(`{% macro M %}` + D + `abc{% end %}`)}, "i.html")
+		run(scriggo.Files{f.name: []byte(f.src)}, f.name)
 	}
 }
